@@ -55,6 +55,32 @@ Definition run_515 (h ds : list Z) : io := [1 :: format_float (zb (nthz h 0), ds
 Definition run_516 (g : list Z) : io :=
   match dec_parse g with None => [[0]] | Some (neg, ds, e) => [[1; bz neg; e]; ds] end.
 
+(* 518: [neg; exponent] | digit codes | token codes -> [[1]] iff the token (the implementation's rendering of the number), read by the
+   model of Decimal(text), denotes the same decimal VALUE as the number and as the model's own rendering; [[0]] otherwise.
+   The exact text of a rendered number is not constrained by the property (only its value and the writer's fixed point), so the
+   tie compares values: value-canonical form = digits without trailing zeros, exponent raised accordingly, zero as +0E0. *)
+Fixpoint drop_zeros (r : list Z) (k : Z) : list Z * Z :=
+  match r with
+  | c :: r' => if c =? 48 then drop_zeros r' (k + 1) else (r, k)
+  | [] => ([], k)
+  end.
+Definition dnorm (d : dec) : dec :=
+  match d with
+  | (neg, ds, e) =>
+      match drop_zeros (rev (lstrip0 ds)) 0 with
+      | ([], _) => (false, [48], 0)
+      | (r, k) => (neg, rev r, e + k)
+      end
+  end.
+Definition dec_eqb (a b : dec) : bool :=
+  match a, b with (n1, d1, e1), (n2, d2, e2) => Bool.eqb n1 n2 && leqb d1 d2 && (e1 =? e2) end.
+Definition run_518 (h ds tok : list Z) : io :=
+  let d := (zb (nthz h 0), ds, nthz h 1) in
+  match dec_parse tok, dec_parse (format_float d) with
+  | Some a, Some b => [[bz (dec_eqb (dnorm a) (dnorm d) && dec_eqb (dnorm b) (dnorm d))]]
+  | _, _ => [[0]]
+  end.
+
 (* ---- matrices and statements as groups ----
    matrix:     [10; name] ECU | [11; name] value table, [12; key; label] its rows |
                [20; id; ext; size] frame, [21; name], [22; transmitter]* |
@@ -173,6 +199,7 @@ Definition run_c05 (cmd : Z) (a : io) : io :=
   | 515, [h; ds] => run_515 h ds
   | 516, [g] => run_516 g
   | 517, _ => run_517 a
+  | 518, [h; ds; tok] => run_518 h ds tok
   | 520, _ => run_520 a
   | 521, _ => run_521 a
   | _, _ => [[-999]]
